@@ -123,10 +123,12 @@ def evaluate(item):
     if item[0] == "schema":
         return eval_schema(item)
     _, uni, idxs, tkind, spec, order, mode = item
+    mode_full = mode
+    mode, _, location = mode.partition("@")  # where the export target lives relative to the importing project
     sps = [UNIVERSES[uni][i] for i in idxs]
     viol = []
     inp = {"kind": "roundtrip", "universe": uni, "indices": list(idxs), "target": tkind, "pathspec": spec, "order": order,
-           "mode": mode, "statepoints": sps}
+           "mode": mode_full, "statepoints": sps}
 
     def bad(kind, msg, **extra):
         viol.append({"sig": dict(kind=kind, **extra), "scenario": f"{tkind}/{spec}", "input": inp,
@@ -139,8 +141,11 @@ def evaluate(item):
         for i, sp in enumerate(sps):
             fill(S.open_job(sp).init(), i)
         src_content = project_content(sp_)
-        target = os.path.join(root, "out", "export" + ("" if tkind == "dir" else tkind))
-        os.makedirs(os.path.join(root, "out"))
+        tname = "export" + ("" if tkind == "dir" else tkind)
+        # "inside": below the importing project's root (not in its workspace); "sibling": next to it, the name extending its name
+        trel = {"": os.path.join("out", tname), "inside": os.path.join("Q", "exported", tname), "sibling": "Q_" + tname}[location]
+        target = os.path.join(root, trel)
+        os.makedirs(os.path.dirname(target), exist_ok=True)
         before_root = canon.snapshot(root)
         path = make_pathspec(spec, src_content)
         try:
@@ -149,8 +154,7 @@ def evaluate(item):
         except Exception as e:  # noqa
             exp_exc = e
         after_root = canon.snapshot(root)
-        changed = [d for d in canon.snap_diff(before_root, after_root)
-                   if not (d[0] == "out/" + os.path.basename(target) or d[0].startswith("out/" + os.path.basename(target) + "/"))]
+        changed = [d for d in canon.snap_diff(before_root, after_root) if not (d[0] == trel or d[0].startswith(trel + "/"))]
         changed = [d for d in changed if not d[0].startswith("S/.signac")]
         if changed:
             bad("export-writes-outside-target" if not any(d[0].startswith("S/") for d in changed) else "export-modifies-source",
@@ -379,6 +383,9 @@ def universe(tier):
                     if quick and order == "reversed" and tkind == ".tar.gz":
                         continue
                     yield ("rt", uni, idxs, tkind, spec, order, "empty")
+            if idxs and tkind == "dir":
+                yield ("rt", uni, idxs, tkind, "none", "sorted", "empty@inside")
+                yield ("rt", uni, idxs, tkind, "false", "sorted", "empty@sibling")
             if idxs:
                 yield ("rt", uni, idxs, tkind, "none", "sorted", "existing")
                 yield ("rt", uni, idxs, tkind, "false", "sorted", "existing")
